@@ -481,6 +481,50 @@ theorem triDisjoint_sound (s t : Tri2 K) (hs : 0 < s.orient) (ht : 0 < t.orient)
   · exact absurd (sepBy_le _ _ s h p hps) (not_le.mpr t2)
   · exact absurd (sepBy_le _ _ s h p hps) (not_le.mpr t3)
 
+theorem le_max3 (a b c : K) : a ≤ max3 a b c ∧ b ≤ max3 a b c ∧ c ≤ max3 a b c := by
+  unfold max3; simp only
+  split_ifs <;> refine ⟨?_, ?_, ?_⟩ <;> linarith
+
+theorem min3_le (a b c : K) : min3 a b c ≤ a ∧ min3 a b c ≤ b ∧ min3 a b c ≤ c := by
+  unfold min3; simp only
+  split_ifs <;> refine ⟨?_, ?_, ?_⟩ <;> linarith
+
+/-- A strictly interior point lies within the coordinate range of the corners. -/
+theorem strictIn_range (t : Tri2 K) (p : V2 K) (hp : StrictIn t p) :
+    min3 t.a.x t.b.x t.c.x ≤ p.x ∧ p.x ≤ max3 t.a.x t.b.x t.c.x ∧
+    min3 t.a.y t.b.y t.c.y ≤ p.y ∧ p.y ≤ max3 t.a.y t.b.y t.c.y := by
+  obtain ⟨α, β, γ, h1, h2, h3, hsum, rfl⟩ := hp
+  rw [atBary2_eq]
+  obtain ⟨x1, x2, x3⟩ := le_max3 t.a.x t.b.x t.c.x
+  obtain ⟨x4, x5, x6⟩ := min3_le t.a.x t.b.x t.c.x
+  obtain ⟨y1, y2, y3⟩ := le_max3 t.a.y t.b.y t.c.y
+  obtain ⟨y4, y5, y6⟩ := min3_le t.a.y t.b.y t.c.y
+  simp only
+  have e : ∀ m : K, m = α * m + β * m + γ * m := by intro m; linear_combination (-m) * hsum
+  refine ⟨?_, ?_, ?_, ?_⟩
+  · rw [e (min3 t.a.x t.b.x t.c.x)]
+    nlinarith [mul_le_mul_of_nonneg_left x4 h1.le, mul_le_mul_of_nonneg_left x5 h2.le, mul_le_mul_of_nonneg_left x6 h3.le]
+  · rw [e (max3 t.a.x t.b.x t.c.x)]
+    nlinarith [mul_le_mul_of_nonneg_left x1 h1.le, mul_le_mul_of_nonneg_left x2 h2.le, mul_le_mul_of_nonneg_left x3 h3.le]
+  · rw [e (min3 t.a.y t.b.y t.c.y)]
+    nlinarith [mul_le_mul_of_nonneg_left y4 h1.le, mul_le_mul_of_nonneg_left y5 h2.le, mul_le_mul_of_nonneg_left y6 h3.le]
+  · rw [e (max3 t.a.y t.b.y t.c.y)]
+    nlinarith [mul_le_mul_of_nonneg_left y1 h1.le, mul_le_mul_of_nonneg_left y2 h2.le, mul_le_mul_of_nonneg_left y3 h3.le]
+
+theorem bboxSep_sound (s t : Tri2 K) (h : bboxSep s t = true) : InteriorDisjoint s t := by
+  intro p ⟨hps, hpt⟩
+  obtain ⟨s1, s2, s3, s4⟩ := strictIn_range s p hps
+  obtain ⟨t1, t2, t3, t4⟩ := strictIn_range t p hpt
+  simp only [bboxSep, Bool.or_eq_true, decide_eq_true_eq] at h
+  rcases h with ((h | h) | h) | h <;> linarith
+
+theorem triDisjointF_sound (s t : Tri2 K) (hs : 0 < s.orient) (ht : 0 < t.orient)
+    (h : triDisjointF s t = true) : InteriorDisjoint s t := by
+  simp only [triDisjointF, Bool.or_eq_true] at h
+  rcases h with h | h
+  · exact bboxSep_sound s t h
+  · exact triDisjoint_sound s t hs ht h
+
 theorem pairwiseB_sound {β} (f : β → β → Bool) (l : List β) (h : pairwiseB f l = true) :
     l.Pairwise fun a b => f a b = true := by
   induction l with
@@ -504,9 +548,9 @@ theorem uvValidCCW_sound (lo hi : K) (ts : List (Tri2 K)) (h : uvValidCCW lo hi 
   simp only [uvValidCCW, Bool.and_eq_true, List.all_eq_true, decide_eq_true_eq] at h
   obtain ⟨⟨ho, hp⟩, hb⟩ := h
   refine ⟨ho, ?_, ?_⟩
-  · have := pairwiseB_sound triDisjoint ts hp
+  · have := pairwiseB_sound triDisjointF ts hp
     -- strengthen pointwise using the orientation facts
-    have key : ∀ (l : List (Tri2 K)), (∀ t ∈ l, 0 < t.orient) → l.Pairwise (fun a b => triDisjoint a b = true) →
+    have key : ∀ (l : List (Tri2 K)), (∀ t ∈ l, 0 < t.orient) → l.Pairwise (fun a b => triDisjointF a b = true) →
         l.Pairwise InteriorDisjoint := by
       intro l hl hpw
       induction hpw with
@@ -514,7 +558,7 @@ theorem uvValidCCW_sound (lo hi : K) (ts : List (Tri2 K)) (h : uvValidCCW lo hi 
       | @cons x r hx _ ih =>
         refine List.Pairwise.cons ?_ (ih (fun t ht => hl t (by simp [ht])))
         intro b hb
-        exact triDisjoint_sound x b (hl x (by simp)) (hl b (by simp [hb])) (hx b hb)
+        exact triDisjointF_sound x b (hl x (by simp)) (hl b (by simp [hb])) (hx b hb)
     exact key ts ho this
   · intro t ht
     have := hb t ht
